@@ -98,6 +98,8 @@ def main(run):
     run.require("ixai/utils/wrappers/base.py:Wrapper.convert_arr_output_to_dict", "ixai/utils/wrappers/sklearn.py:SklearnWrapper.__call__",
                 "ixai/utils/wrappers/torch.py:TorchWrapper.__call__", "ixai/utils/wrappers/river.py:RiverWrapper.__call__",
                 "ixai/utils/validators/model.py:validate_model_function")
+    run.require_count("categorical-single-calls", "categorical-first-value-is-string", "categorical-all-strings-equal-length", "categorical-batch-calls",
+                      "pipeline-categorical-calls", "mapping-subclass-calls", "mapping-absent-name-calls")
     rnd = random.Random(run.shard_seed)
     thorough = run.tier == "thorough"
     feats = ["a", "b", "c", "d"]
@@ -193,6 +195,218 @@ def main(run):
                                 run.nontriv((wrapper_kind, shape_kind, c, dtype, use_names, n, cont.__name__))
                                 if len(run.samples) < 2 and n == 2 and c == 2 and isinstance(got, list):
                                     run.sample({**replay, "result": got})
+    # ---------------- categorical (string-valued) feature values and dict SUBCLASSES as input containers
+    # A feature dict may carry strings (a categorical feature, also as its FIRST entry; the base-class docstring shows
+    # {'feature_1': 'value_1', 'feature_2': 2}); NumPy then hands the model a string array. The model here decodes every cell
+    # (numeric text -> the number, other text -> a small code) and is row-independent, so the canonical form of a single dict and of
+    # the rows of a batch is known from the feature values alone. TorchWrapper converts to float32 tensors: strings are not legal there.
+    def cat_code(s_):
+        s_ = str(s_)
+        try:
+            return float(s_)
+        except ValueError:
+            return float(sum((i_ + 1) * ord(ch) for i_, ch in enumerate(s_)) % 17 - 8)
+    palettes = [["red", "tan", "sky"], ["blue", "green", "x", "magenta"], ["big", "small"], ["caf\u00e9", "na\u00efve", "ab"], ["aa", "bb", "cc", "dd"]]
+
+    def rand_cat_x(first_str, all_str, pal_same):
+        x = {}
+        for j, f in enumerate(feats):
+            if all_str or (j == 0 and first_str) or (j > 0 and rnd.random() < 0.4):
+                x[f] = rnd.choice(palettes[0] if pal_same else rnd.choice(palettes))
+            else:
+                x[f] = rnd.choice([float(rnd.randrange(-9, 10)), rnd.randrange(-9, 10), rnd.randrange(-40, 40) / 8.0])
+        return x
+    cat_i = 0
+    for shape_kind, c in [("(n,)", 1), ("(n,1)", 1), ("(n,c)", 1), ("(n,c)", 3), ("()", 1), ("(c,)", 2), ("(n,c)F", 2)]:
+        for dtype in ("float64", "int64", "prob"):
+            for names in (None, ["c", "a", "d"], ["d", "c", "b", "a"], ["b"]):
+                inner = []
+                pf, g = make_pf(shape_kind, c, dtype, inner)
+                raw_seen = []
+
+                def pfc(arr, pf=pf, raw_seen=raw_seen):
+                    arr = np.asarray(arr)
+                    raw_seen.append(arr.copy())
+                    return pf(np.array([[cat_code(v) for v in r] for r in arr], dtype=float))
+                w = SklearnWrapper(pfc, feature_names=names)
+                cols = names if names else feats
+                width = c if shape_kind in ("(n,c)", "(n,c)F", "(c,)") else 1
+                tag = f"sklearn categorical shape={shape_kind} c={c} dtype={dtype} feature_names={names}"
+                for rep in range(3 if not thorough else 10):
+                    cat_i += 1
+                    first_str, all_str, pal_same = cat_i % 2 == 0, cat_i % 3 == 0, cat_i % 4 < 2
+                    x = rand_cat_x(first_str, all_str, pal_same)
+                    order = feats if (first_str and rep != 2) else rnd.sample(feats, len(feats))
+                    xd = {f: x[f] for f in order}
+                    exp = canon_row(g([cat_code(x[f]) for f in (cols if names else order)])[:width])     # without names: the dict's own order
+                    replay = {"wrapper": "sklearn", "categorical": True, "shape": shape_kind, "c": c, "dtype": dtype, "feature_names": names, "x": xd}
+                    del raw_seen[:]
+                    run.ok(kind="categorical-single")
+                    run.count("categorical-single-calls")
+                    if isinstance(next(iter(xd.values())), str):
+                        run.count("categorical-first-value-is-string")
+                    if len({len(v) for v in xd.values() if isinstance(v, str)}) == 1 and all(isinstance(v, str) for v in xd.values()):
+                        run.count("categorical-all-strings-equal-length")
+                    try:
+                        got = w(xd)
+                    except Exception as ex:
+                        run.violation("single-input-raises", f"{tag}: wrapper({xd!r}) raised {type(ex).__name__}: {ex}", replay)
+                        continue
+                    if not eq_out(got, exp):
+                        run.violation("size-one-output-label" if "output" in exp else "vector-output-form",
+                                      f"{tag}: wrapper({xd!r}) = {got!r}, canonical form {exp!r}", replay)
+                    if names and raw_seen:
+                        arr = raw_seen[-1]
+                        if arr.shape != (1, len(cols)) or not all(cat_code(arr[0, j]) == cat_code(x[f]) for j, f in enumerate(cols)):
+                            run.violation("feature-order", f"{tag}: array reaching the model {arr!r} for input {xd!r}", replay)
+                    run.nontriv(("categorical", shape_kind, c, dtype, tuple(names or ()), first_str, all_str, "single"))
+                if shape_kind in ("(n,)", "(n,1)", "(n,c)", "(n,c)F"):
+                    for n in (1, 2, 5):
+                        cat_i += 1
+                        xs = [rand_cat_x(cat_i % 2 == 0, cat_i % 3 == 0, cat_i % 4 < 2) for _ in range(n)]
+                        if names:
+                            xs = [{f: xi[f] for f in rnd.sample(feats, len(feats))} for xi in xs]
+                        exps = [canon_row(g([cat_code(xi[f]) for f in cols])[:width]) for xi in xs]
+                        replay = {"wrapper": "sklearn", "categorical": True, "shape": shape_kind, "c": c, "dtype": dtype, "feature_names": names, "xs": xs}
+                        run.ok(kind="categorical-batch")
+                        run.count("categorical-batch-calls")
+                        try:
+                            got = w(list(xs))
+                            singles = [w(xi) for xi in xs]
+                        except Exception as ex:
+                            run.violation("batch-input-raises", f"{tag} n={n}: {type(ex).__name__}: {ex}", replay)
+                            continue
+                        if not isinstance(got, list) or len(got) != n or not all(eq_out(a, b) for a, b in zip(got, exps)):
+                            run.violation("size-one-output-label" if len(exps[0]) == 1 else "batch-row-form",
+                                          f"{tag} n={n}: wrapper(list) = {got!r}, canonical rows {exps!r}", replay)
+                        elif not all(eq_out(a, b) for a, b in zip(singles, exps)):
+                            run.violation("single-vs-batch", f"{tag} n={n}: batch {got!r} vs one-at-a-time {singles!r}", replay)
+                        run.nontriv(("categorical", shape_kind, c, dtype, tuple(names or ()), n, "batch"))
+    # a real sklearn Pipeline over categorical columns (OneHotEncoder -> tree / logistic model): the judge is the pipeline's own output
+    try:
+        from sklearn.pipeline import make_pipeline
+        from sklearn.preprocessing import OneHotEncoder
+        from sklearn.tree import DecisionTreeClassifier as _DTC, DecisionTreeRegressor as _DTR
+        from sklearn.linear_model import LogisticRegression as _LR
+        cat_cols = ["colour", "size", "shape"]
+        cat_pal = {"colour": ["red", "tan", "sky", "blue"], "size": ["big", "small", "mid"], "shape": ["box", "orb", "rod", "cone"]}
+        Xc = np.array([[rnd.choice(cat_pal[f]) for f in cat_cols] for _ in range(80)])
+        num = np.array([[cat_code(v) for v in r] for r in Xc])
+        ycl = (num[:, 0] + num[:, 1] > 0).astype(int) + (num[:, 2] > 2).astype(int)
+        yrg = num @ np.array([1.0, -2.0, 0.5])
+        for est, y, meths in [(_DTC(max_depth=4, random_state=0), ycl, ("predict", "predict_proba")), (_DTR(max_depth=4, random_state=0), yrg, ("predict",)),
+                              (_LR(), ycl, ("predict", "predict_proba"))]:
+            with warnings.catch_warnings():
+                warnings.simplefilter("ignore")
+                pipe = make_pipeline(OneHotEncoder(handle_unknown="ignore"), est).fit(Xc, y)
+            for meth in meths:
+                for names in (None, ["colour", "size", "shape"]):
+                    with warnings.catch_warnings():
+                        warnings.simplefilter("ignore")
+                        w = validate_model_function(getattr(pipe, meth)) if names is None else SklearnWrapper(getattr(pipe, meth), feature_names=names)
+                    run.ok(kind="dispatch")
+                    if not isinstance(w, SklearnWrapper):
+                        run.violation("dispatch-sklearn", f"sklearn Pipeline.{meth} mapped to {type(w).__name__}", {"estimator": "Pipeline", "method": meth})
+                        continue
+                    xs = [{f: rnd.choice(cat_pal[f]) for f in cat_cols} for _ in range(4)]
+                    rows = np.array([[xi[f] for f in cat_cols] for xi in xs])
+                    raw = getattr(pipe, meth)(rows)
+                    raw1 = [getattr(pipe, meth)(rows[i:i + 1]) for i in range(len(xs))]
+                    if names:
+                        xs = [{f: xi[f] for f in rnd.sample(cat_cols, 3)} for xi in xs]
+                    replay = {"estimator": f"Pipeline(OneHotEncoder, {type(est).__name__})", "method": meth, "feature_names": names, "xs": xs}
+                    run.ok(kind="pipeline-categorical")
+                    run.count("pipeline-categorical-calls")
+                    try:
+                        batch = w(xs)
+                        singles = [w(xi) for xi in xs]
+                    except Exception as ex:
+                        run.violation("batch-input-raises", f"Pipeline(OneHotEncoder, {type(est).__name__}).{meth} predicts the rows itself, but the wrapper raised "
+                                                            f"{type(ex).__name__}: {ex}", replay)
+                        continue
+                    if not (isinstance(batch, list) and len(batch) == len(xs) and all(eq_out(a, canon_row(raw[i])) for i, a in enumerate(batch))):
+                        run.violation("batch-row-form", f"Pipeline.{meth} over categorical features: batch {batch!r} vs the pipeline's rows {raw!r}", replay)
+                    if not all(eq_out(a, canon_row(b)) for a, b in zip(singles, raw1)):
+                        run.violation("size-one-output-label" if np.asarray(raw1[0]).size == 1 else "vector-output-form",
+                                      f"Pipeline.{meth} over categorical features: one-at-a-time {singles!r} vs the pipeline's own one-row outputs {raw1!r}", replay)
+                    run.nontriv(("pipeline-categorical", type(est).__name__, meth, bool(names)))
+    except ImportError:
+        pass
+    # dict subclasses as the input mapping: OrderedDict, Counter (absent key = 0), defaultdict (absent key = the default). The value of
+    # feature f in the mapping x is x[f]; with feature_names exactly [x[f] for f in names] reaches the model, single and batch alike.
+    def make_mapping(kind, x, drop):
+        items = [(f, v) for f, v in x.items() if f not in drop]
+        if kind == "OrderedDict":
+            return collections.OrderedDict(items), None
+        if kind == "Counter":
+            return collections.Counter({f: int(v) for f, v in items}), 0
+        if kind == "defaultdict-float":
+            m = collections.defaultdict(float)
+            m.update(items)
+            return m, 0.0
+        dv = float(rnd.randrange(-5, 6)) + 0.5
+        m = collections.defaultdict(lambda dv=dv: dv)
+        m.update(items)
+        return m, dv
+    map_i = 0
+    for wrapper_kind in ("sklearn", "torch"):
+        for shape_kind, c in [("(n,)", 1), ("(n,1)", 1), ("(n,c)", 3), ("(n,c)", 1)]:
+            for dtype in ("float64", "float32", "int64"):
+                for names in (None, ["c", "a", "d"], ["b"], ["d", "c", "b", "a"]):
+                    seen = []
+                    pf, g = make_pf(shape_kind, c, dtype, seen)
+                    if wrapper_kind == "sklearn":
+                        w = SklearnWrapper(pf, feature_names=names)
+                    else:
+                        def link(t, pf=pf):
+                            return torch.as_tensor(np.asarray(pf(t.numpy())))
+                        w = TorchWrapper(link, feature_names=names)
+                    cols = names if names else feats
+                    width = c if shape_kind == "(n,c)" else 1
+                    for mkind in ("OrderedDict", "Counter", "defaultdict-float", "defaultdict-const"):
+                        map_i += 1
+                        n = [1, 1, 3, 2][map_i % 4]
+                        batch = map_i % 3 == 0 or n > 1
+                        tag = f"{wrapper_kind} shape={shape_kind} c={c} dtype={dtype} feature_names={names} input mapping {mkind}"
+                        xs, vals, n_missing = [], [], 0
+                        for _ in range(n):
+                            x = {f: float(rnd.randrange(0, 10)) for f in rnd.sample(feats, len(feats))}
+                            # absent names only where the mapping itself defines them (__missing__) and the wrapper selects by name
+                            drop = set(rnd.sample(feats, rnd.choice([1, 2]))) if (names and mkind != "OrderedDict" and map_i % 5 != 0) else set()
+                            m, dv = make_mapping(mkind, x, drop)
+                            n_missing += sum(1 for f in cols if f in drop)
+                            vals.append([float(dv if f in drop else x[f]) for f in cols] if names else [float(v) for f, v in x.items()])
+                            xs.append(m)
+                        exps = [canon_row(g(v)[:width]) for v in vals]
+                        replay = {"wrapper": wrapper_kind, "shape": shape_kind, "c": c, "dtype": dtype, "feature_names": names, "mapping": mkind,
+                                  "xs": [dict(m) for m in xs], "values_by_name": vals, "batch": batch}
+                        run.ok(kind="mapping-subclass")
+                        run.count("mapping-subclass-calls")
+                        if n_missing:
+                            run.count("mapping-absent-name-calls")
+                        del seen[:]
+                        try:
+                            got = w(list(xs)) if batch else [w(xs[0])]
+                        except Exception as ex:
+                            run.violation("batch-input-raises" if batch else "single-input-raises",
+                                          f"{tag}: {'batch' if batch else 'single'} call on {xs!r} raised {type(ex).__name__}: {ex}", replay)
+                            continue
+                        if not isinstance(got, list) or len(got) != n or not all(eq_out(a, b) for a, b in zip(got, exps)):
+                            run.violation("size-one-output-label" if len(exps[0]) == 1 else ("batch-row-form" if batch else "vector-output-form"),
+                                          f"{tag}: wrapper({xs!r}) = {got!r}, canonical {exps!r}", replay)
+                        if names and seen:
+                            arr = np.asarray(seen[0])
+                            if arr.shape != (n, len(cols)) or not all(float(arr[i, j]) == vals[i][j] for i in range(n) for j in range(len(cols))):
+                                run.violation("feature-order", f"{tag}: array reaching the model {arr!r}, values by name {vals!r}", replay)
+                        if batch:
+                            try:
+                                singles = [w(m) for m in xs]
+                            except Exception as ex:
+                                run.violation("single-input-raises", f"{tag}: single call raised {type(ex).__name__}: {ex} (the batch call returned {got!r})", replay)
+                                continue
+                            if not all(eq_out(a, b) for a, b in zip(singles, exps)):
+                                run.violation("single-vs-batch", f"{tag}: batch {got!r} vs one-at-a-time {singles!r}", replay)
+                        run.nontriv(("mapping", wrapper_kind, shape_kind, c, dtype, tuple(names or ()), mkind, n, batch))
     # ---------------- RiverWrapper
     for rep in range(90 if not thorough else 400):
         kind = ["dict", "float", "int", "bool", "str", "npfloat", "str", "npbool", "npint", "npfloat32"][rep % 10]
